@@ -10,7 +10,9 @@ Spec:  `Karp/Spec/Finalize.lean` (judged on ground-truth snapshots; shares no co
 Shape of the result
 * single pass, ALL observations x ALL fault vectors x ALL provider answers:
   `C09_node_finalizer`, `C09_instance_delete_in_order`, `C09_min_drain_time`, `C09_claim_finalizer_partial`,
-  `C09_attachment_state_irrelevant`, `C09_existing_attachment_blocks` (volume attachments in transitional states);
+  `C09_attachment_state_irrelevant`, `C09_existing_attachment_blocks` (volume attachments in transitional states),
+  `C09_node_needs_provider_confirmation`, `C09_claim_needs_provider_confirmation` (no finalizer removal on a provider
+  call that fails, however the failure looks);
 * ALL histories of the transition system from ANY world (any order of reconciles, any faults / crashes / restarts, pods
   and volumes leaving at any time): `C09_step_ordered`, `C09_histories_ordered`;
 * leak-freedom as an invariant over ALL histories, under "a launch persists its provider id":
@@ -63,6 +65,13 @@ theorem fact_requeues_positive :
     nor finalizers, nor `status.attached` make an attachment stop blocking (property: "blocking volume attachments are
     gone or the termination grace period has expired") -/
 theorem fact_va_filter_reads : Finalize.vaFilterReads = ["Spec.Source.PersistentVolumeName"] := by decide
+
+/-- a provider error says "the instance is gone" only by being (or wrapping) a `*NodeClaimNotFoundError`: the classifier
+    both controllers use consults nothing else — in particular not `apierrors.IsNotFound` (an API NotFound for another
+    object, e.g. a deleted NodeClass, is not a confirmation) and not the message (property: "the cloud provider confirms
+    the instance no longer exists" / "the provider reports the instance not found") -/
+theorem fact_not_found_classifier :
+    Finalize.isNotFoundReturns = ["false", "errors.As(err, &ncnfErr)"] ∧ Finalize.ignoreNotFoundReturns = ["nil", "err"] := by decide
 
 /-! ## Single pass: the node termination controller -/
 
@@ -154,6 +163,36 @@ theorem C09_existing_attachment_blocks (now : Int) (n : NodeObs) (claims : List 
       rcases hpath with ⟨hnr, _⟩ | hp
       · rw [hready] at hnr; cases hnr
       · exact absurd hp.volumes hne
+
+/-- **C09_node_needs_provider_confirmation** — for every observation and fault vector: a pass of the node termination
+    controller in which neither provider call answers not-found (it succeeds, fails in whatever way, or is not made)
+    does not remove the finalizer of a Node that has its NodeClaim.  Every failure of a provider call — including the
+    near misses of "not found" the harness injects — is the answer `.err`. -/
+theorem C09_node_needs_provider_confirmation (now : Int) (n : NodeObs) (claims : List ClaimObs) (pods : List Pod) (vas : List VA)
+    (f : NodeFaults) (getOut delOut : ProvOut) (single : (nodeClaimOf n claims).isSome = true)
+    (hg : getOut ≠ .notFound) (hd : delOut ≠ .notFound) :
+    (nodeReconcile now n claims pods vas f getOut delOut).removed = false := by
+  cases hr : (nodeReconcile now n claims pods vas f getOut delOut).removed
+  · rfl
+  · obtain ⟨_, hpath⟩ := nodeReconcile_removed _ _ _ _ _ _ _ _ hr
+    rcases hpath with ⟨_, h⟩ | hp
+    · exact absurd h hg
+    · exact absurd (hp.instance_ single) hd
+
+/-- **C09_claim_needs_provider_confirmation** — a pass of the lifecycle controller over a NodeClaim that records a
+    provider id does not remove its finalizer unless the provider answered `Delete` with not-found. -/
+theorem C09_claim_needs_provider_confirmation (c : ClaimState) (nodes : List NodeRef) (cache : Bool) (f : ClaimFaults) (delOut : ProvOut)
+    (createOut : CreateOut) (hpid : c.pid = true) (hd : delOut ≠ .notFound) :
+    (claimReconcile c nodes cache f delOut createOut).removed = false := by
+  cases hr : (claimReconcile c nodes cache f delOut createOut).removed
+  · rfl
+  · rcases claimReconcile_cases c nodes cache f delOut createOut with ⟨_, he⟩ | ⟨_, _, he⟩ | ⟨_, _, he⟩
+    · rw [he] at hr; simp at hr
+    · rw [he] at hr
+      obtain ⟨_, _, hp⟩ := (claimFinalize_spec c nodes f delOut).removed hr
+      exact absurd (hp hpid) hd
+    · rw [he, (claimLaunch_spec c cache f createOut).removed] at hr
+      simp at hr
 
 /-- the code also waits `MinDrainTime` after the drain started (more than the property asks): a pass that removes the
     finalizer of a Ready node found a Drained condition on the claim, and if that condition was still Unknown, at
